@@ -1028,6 +1028,9 @@ func init() {
 			w.setDistribute(true)
 			w.setHeight(13)
 			w.opEpoch()
+			// known finding F17 (kept reproducible on every run): an addition into this pool, whose native side is
+			// empty, resets the pool units to the native amount added while the two providers keep theirs
+			w.opAdd(w.users[2], "ceth", big.NewInt(2), new(big.Int).Add(e18(10), big.NewInt(1)))
 		}
 		// D12: decommission of a pool with more providers than any page size a reader might assume (205): every
 		// provider is refunded and deleted, nothing but the truncation remainders stays behind
